@@ -370,8 +370,9 @@ def finish(ctx, level, technique_note, trusted, assumptions, checker_cmd):
                   open(path, "w"), indent=1)
         lines.append(f"VIOLATION property={ctx.prop} replay={path} no-failing-input-found")
         nviol += 1
+    out_lines = []
     for kid, (k, n) in known_hit.items():
-        print(f"KNOWN-FINDING: property={ctx.prop} {k['what']} [{kid}; {n} instance(s) this run]")
+        out_lines.append(f"KNOWN-FINDING: property={ctx.prop} {k['what']} [{kid}; {n} instance(s) this run]")
     nobl = len(ctx.obligations)
     ndis = sum(1 for _, ok in ctx.obligations if ok)
     cov = {
@@ -392,10 +393,11 @@ def finish(ctx, level, technique_note, trusted, assumptions, checker_cmd):
           "technique": technique_note}
     os.makedirs(os.path.join(ROOT, "evidence"), exist_ok=True)
     json.dump(ev, open(os.path.join(ROOT, "evidence", ctx.prop + ".json"), "w"), indent=1)
-    for l in lines:
-        print(l)
-    print(f"{ctx.prop} [{ctx.tier}] obligations {ndis}/{nobl}, evaluations {ctx.cov['evaluations']}, "
-          f"violations {nviol}, known {len(known_hit)}, {ev['wall_s']}s")
+    out_lines += lines
+    out_lines.append(f"{ctx.prop} [{ctx.tier}] obligations {ndis}/{nobl}, evaluations {ctx.cov['evaluations']}, "
+                     f"violations {nviol}, known {len(known_hit)}, {ev['wall_s']}s")
+    ctx.out_lines = out_lines
+    ctx.outcome = "concrete" if reported else ("obligation-only" if still else "clean")
     return 1 if nviol else 0
 
 
@@ -415,4 +417,20 @@ def main(argv):
     ctx = Ctx(a.prop, a.tier, a.seed)
     if a.replay:
         return props.replay(ctx, a.replay)
-    return props.PROPS[a.prop](ctx)
+    rc = props.PROPS[a.prop](ctx)
+    if rc != 0 and getattr(ctx, "outcome", "") == "obligation-only" and a.tier == "quick" and not os.environ.get("VERIF_NO_ESCALATE"):
+        # an obligation or the correspondence broke but no input was found on which the property fails: search harder
+        # (larger generators, three seeds) before reporting `no-failing-input-found`
+        print(f"{a.prop}: an obligation no longer checks and the quick generators found no failing input; escalating the search")
+        ctx2 = Ctx(a.prop, a.tier, a.seed)
+        ctx2.search = True
+        ctx2.notes.append("failing-input search escalated after a broken obligation (sizes x6, three seeds)")
+        rc2 = props.PROPS[a.prop](ctx2)
+        if getattr(ctx2, "outcome", "") == "concrete":
+            ctx, rc = ctx2, rc2
+        else:
+            # keep the first run's evidence file? the second run rewrote it with the larger coverage: fine, same verdict
+            ctx, rc = ctx2, rc2
+    for l in getattr(ctx, "out_lines", []):
+        print(l)
+    return rc
